@@ -10,6 +10,8 @@ import (
 
 	"deps.dev/util/resolve"
 	"deps.dev/util/resolve/schema"
+
+	"verifharness/internal/vergram"
 )
 
 // Universe is a package universe for resolve.LocalClient, kept as text.
@@ -211,8 +213,50 @@ func (u Universe) Index() (*Index, error) {
 				return nil, fmt.Errorf("universe: package %q has two equal versions %q, %q", p.Name, p.Versions[j-1].Version, p.Versions[j].Version)
 			}
 		}
+		if u.System == Maven {
+			if err := checkMavenOrder(p); err != nil {
+				return nil, err
+			}
+		}
 	}
 	return ix, nil
+}
+
+// RefCompareMaven is Maven's version order as the reference comparators of internal/vergram
+// state it (every comparator that applies has to give the same verdict; ok is false when none
+// applies or when they disagree).
+func RefCompareMaven(a, b string) (c int, ok bool) {
+	refs := vergram.References("Maven", a, b)
+	if len(refs) == 0 {
+		return 0, false
+	}
+	for _, r := range refs[1:] {
+		if r.Cmp != refs[0].Cmp {
+			return 0, false
+		}
+	}
+	return refs[0].Cmp, true
+}
+
+// checkMavenOrder verifies, for a package that carries qualifier flavours, that the model
+// order (Ver.Compare, which sorted the versions) is Maven's order on every pair of its
+// versions. A disagreement is a mistake of the harness's version model.
+func checkMavenOrder(p *IndexPackage) error {
+	flavoured := false
+	for _, v := range p.Versions {
+		flavoured = flavoured || v.V.Flav != FlavNone || v.V.Tight
+	}
+	if !flavoured {
+		return nil
+	}
+	for i := range p.Versions {
+		for j := i + 1; j < len(p.Versions); j++ {
+			if c, ok := RefCompareMaven(p.Versions[i].Version, p.Versions[j].Version); !ok || c >= 0 {
+				return fmt.Errorf("universe: package %q: the model orders %q before %q, the Maven reference comparator says %d (decided: %v)", p.Name, p.Versions[i].Version, p.Versions[j].Version, c, ok)
+			}
+		}
+	}
+	return nil
 }
 
 // CountingClient wraps a resolve.Client: it serialises calls (LocalClient sorts its version
